@@ -5,7 +5,7 @@ S=$1; WT=$2
 export CARGO_NET_OFFLINE=true CARGO_INCREMENTAL=0 CARGO_PROFILE_DEV_DEBUG=0 CARGO_PROFILE_TEST_DEBUG=0 CARGO_TARGET_DIR=$WT/target TMPDIR=$WT/tmp
 mkdir -p $TMPDIR
 cd $WT || exit 2
-git checkout -q -- . && git clean -fdq -e target -e tmp
+git checkout -q -- . && git clean -fdq -e target -e tmp -e out
 read PKG TEST < <(python3 - "$S/meta.json" <<'PY'
 import json,re,sys
 m=json.load(open(sys.argv[1])); c=m["demo_cmd"]
@@ -28,6 +28,6 @@ git apply -R $S/patch.diff
 cargo nextest run --offline -j 8 -p $PKG --no-fail-fast > $WT/without.log 2>&1
 O_FAIL=$(grep -E "^\s+(FAIL|SIGABRT|SIGSEGV|TIMEOUT)" $WT/without.log | awk '{print $NF}' | sort -u | tr '\n' ' ')
 O_SUM=$(grep -E "Summary" $WT/without.log | tail -1)
-git checkout -q -- . && git clean -fdq -e target -e tmp
+git checkout -q -- . && git clean -fdq -e target -e tmp -e out
 rm -rf $TMPDIR/* $TMPDIR/.tmp* 2>/dev/null
 echo "RESULT $S with-patch: [$W_SUM] failing: $W_FAIL | without-patch: [$O_SUM] failing: $O_FAIL"
